@@ -136,20 +136,33 @@ func (s *sys) probe() {
 	mark := len(o.log)
 	var sb strings.Builder
 	last := ""
+	lastActivity := 0 // second of the probe in which the controller last did anything observable
+	nlog := len(o.log)
 	for i := 1; i <= quietProbe; i++ {
 		advance(time.Second)
 		o.observe()
 		cur := fmt.Sprintf("%s/%s", o.ctl.State(), o.ctl.CurrentRole())
 		if cur != last {
 			fmt.Fprintf(&sb, "@%d:%s;", i, cur)
+			if last != "" {
+				lastActivity = i
+			}
 			last = cur
+		}
+		if len(o.log) != nlog {
+			nlog = len(o.log)
+			lastActivity = i
 		}
 	}
 	for _, e := range o.log[mark:] {
 		fmt.Fprintf(&sb, "%v:%s;", e.t.Sub(t0).Round(time.Millisecond), e.s)
 	}
 	s.probeFP = sb.String()
-	if o.ctl.State() == ha.FailoverStateInProgress {
+	// F6: in_progress, and for longer than any configured delay + grace period
+	// (30s+5s) nothing has happened: no callback, no event, no state change —
+	// so no transition is pending. (A controller that is merely busy, e.g.
+	// retrying a failing callback periodically, shows activity and is not "stuck".)
+	if o.ctl.State() == ha.FailoverStateInProgress && quietProbe-lastActivity >= 40 {
 		site := o.inProgBy
 		if site == "" {
 			site = "unknown"
@@ -177,8 +190,26 @@ func (s *sys) Fingerprint() string {
 
 func (s *sys) Check() []explore.Viol {
 	s.probe()
+	vs := s.o.viols
+	s.shutdown()
+	return vs
+}
+
+// shutdown is the bubble epilogue: every goroutine started in the bubble must
+// have exited before the body returns (synctest does not advance time once the
+// root goroutine is gone). The oracle is closed first: from here on the
+// role-change callback succeeds immediately and nothing is recorded, so a
+// controller that keeps re-arming timers under a failing callback comes to
+// rest. Each round stops the armed timers and lets anything in flight (grace
+// sleep, a timer that fires before the next Stop) run to completion.
+func (s *sys) shutdown() {
+	s.o.closed = true
+	for round := 0; round < 4; round++ {
+		s.o.ctl.Stop()
+		advance(35 * time.Second)
+	}
 	s.o.ctl.Stop()
-	return s.o.viols
+	settle()
 }
 
 func configs() []cfg {
